@@ -171,9 +171,9 @@ PLANS = {
     ),
     'C10': dict(
         module='RucteProps.C10',
-        extra_modules=['RucteProps.C10Tree'],
+        extra_modules=['RucteProps.C10Tree', 'RucteProps.C18Order'],
         needs_tables=True,
-        theorems=['Ructe.C10.others_silent', 'Ructe.C10.valid_template_declared', 'Ructe.C10.broken_template_reported', 'Ructe.C10.subdir_declared', 'Ructe.C10.handleEntries_append', 'Ructe.C10.suffix_table', 'Ructe.C10.tree_mirror_file', 'Ructe.C10.subdir_mod_declared', 'Ructe.C10.template_fn_declared', 'Ructe.C10.decl_only_with_file'],
+        theorems=['Ructe.C10.others_silent', 'Ructe.C10.valid_template_declared', 'Ructe.C10.broken_template_reported', 'Ructe.C10.subdir_declared', 'Ructe.C10.handleEntries_append', 'Ructe.C10.suffix_table', 'Ructe.C10.tree_mirror_file', 'Ructe.C10.subdir_mod_declared', 'Ructe.C10.template_fn_declared', 'Ructe.C10.decl_only_with_file', 'Ructe.C18.broken_isolated'],
         runs=[dict(suite='script', mix='tree', n=dict(quick=200, thorough=4000), projection='script+files+stdout', tags=['C10'])],
         correspondence='the whole OUT_DIR (paths and bytes) and stdout of compile_templates on a directory tree vs Ructe.build given the observed read_dir order',
         rule='random trees to depth 4 with identifier stems / directory names, mixed suffixes, same stem under different suffixes, non-template files, empty directories, broken templates among valid ones; oracle: exactly the expected files, each the code generated for that template alone, declaration chains present, broken templates warned and undeclared; non-trivial = distinct run outputs',
@@ -195,7 +195,8 @@ PLANS = {
     ),
     'C18': dict(
         module='RucteProps.C18',
-        theorems=['Ructe.C18.template_code_pure', 'Ructe.C18.template_code_location_independent', 'Ructe.C18.build_deterministic', 'Ructe.C18.statics_line_pure'],
+        extra_modules=['RucteProps.C18Order'],
+        theorems=['Ructe.C18.template_code_pure', 'Ructe.C18.template_code_location_independent', 'Ructe.C18.build_deterministic', 'Ructe.C18.statics_line_pure', 'Ructe.C18.writes_perm', 'Ructe.C18.decls_concat', 'Ructe.C18.flat_decls_perm', 'Ructe.C18.handleEntries_parametric'],
         runs=[dict(suite='script', mix='tree,statics', n=dict(quick=150, thorough=3000), projection='script+files', tags=['C18']),
               dict(suite='script', mix='history', n=dict(quick=60, thorough=1500), projection='script+files', tags=['C18']),
               dict(suite='parse', mix='examples,structured', n=dict(quick=1500, thorough=25000), projection='text', tags=['C18'])],
